@@ -291,7 +291,11 @@ Record case := {
   k_impl : list cpolicy;                        (* the real converted model.Policy of each policy *)
   k_impl_clean : bool;                          (* every rule field outside `crule` was zero, keys as expected *)
   k_infer : bool;                               (* which variant of the policyTypes inference the tree has (probed) *)
-  k_conns : list (endp * endp * N * N)
+  k_conns : list (endp * endp * N * N);
+  (* cross-check of the selector semantics used on the Calico side: every distinct selector of the converted
+     policies (as parsed by the real parser) with, for each pod in order, the verdict of the REAL evaluator
+     (parser.Selector.Evaluate) on the pod's real labels with the real profiles' labels inherited *)
+  k_sel_evals : list (ast * list bool)
 }.
 
 Definition kns_name (ns : bytes) : bytes := KNS ++ ns.
@@ -337,7 +341,10 @@ Definition agree (c : case) : bool :=
   && forallb (fun e => match find (fun x => bytes_eqb (ksa_name (fst (fst e)) (snd (fst e))) (fst x)) (k_impl_profiles c) with
                        | Some x => labels_eqb (canon_labels (sa_profile_labels (snd (fst e)) (snd e))) (snd x)
                        | None => false
-                       end) (cl_sa (k_cluster c)).
+                       end) (cl_sa (k_cluster c))
+  && forallb (fun e => list_eqb Bool.eqb
+                         (map (fun ip => let ce := impl_cep c ip in matches (fst e) (ce_labels ce) (ce_parents ce)) (k_pods c))
+                         (snd e)) (k_sel_evals c).
 
 (* the property, evaluated on the IMPLEMENTATION's converted policies, labels and profiles: for every
    generated connection the Calico verdict equals the Kubernetes verdict *)
